@@ -25,8 +25,8 @@ def obligations(tier):
     # non-blocking variants never wait
     obs += progress('nb_wfcq_dequeue', 'c10_wfcq.c', ['p1', 'p2', 'c1'], R, ['c1'], cflags=['-DSCEN=1', '-DDEQ=1'] + WF,
                     desc='__cds_wfcq_dequeue_nonblocking x2 returns without waiting, enqueuers suspended between tail exchange and link store')
-    obs += progress('nb_wfcq_splice', 'c10_wfcq.c', ['p1', 'p2', 'c1'], R, ['c1'], cflags=['-DSCEN=2', '-DDEQ=1'] + WF, no_wait=False,
-                    desc='__cds_wfcq_splice_nonblocking (followed by blocking calls only if it did not return WOULDBLOCK) completes when run alone')
+    obs += progress('nb_wfcq_splice_first_next', 'c10_wfcq.c', ['p1', 'p2', 'c1'], R, ['c1'], cflags=['-DSCEN=6', '-DDEQ=1'] + WF,
+                    desc='__cds_wfcq_splice_nonblocking, __cds_wfcq_first_nonblocking, __cds_wfcq_next_nonblocking return without waiting, enqueuers suspended anywhere')
     obs += progress('nb_wfs_pop', 'c11_stack.c', ['p1', 'p2', 'c1'], R, ['c1'], cflags=['-DKIND=0', '-DSCEN=1', '-DPOP=1'] + WF,
                     desc='__cds_wfs_pop_nonblocking x2 returns without waiting, pushers suspended anywhere')
     return obs
